@@ -312,12 +312,22 @@ REPAIR_OUTCOME = dict(region='repair_outcome', file='cmdline/check.c', begin='/*
                       epilogue='\t} /* closes the else branch the region text opened */\n\t*error_p = error; *unrecoverable_p = unrecoverable_error;\n\t(void)esc_buffer;')
 
 
+DATA_VERIFY = dict(region='data_verify', file='cmdline/check.c', scope='static int state_check_process(struct snapraid_state* state, int fix, struct snapraid_parity_handle** parity, block_off_t blockstart, block_off_t blockmax)',
+                   begin='/* read from the file */', end='/* now read and check the parity if requested */', max_lines=110, expect_loops=0, brace_balance=-1,
+                   proto='static void region_data_verify(struct snapraid_state *state, int rehash, block_off_t i, unsigned j, struct snapraid_handle *handle, struct snapraid_disk *disk, struct snapraid_file *file, block_off_t file_pos, struct snapraid_block *block, unsigned block_state, void **buffer, struct failed_struct *failed, unsigned *failed_count_p, unsigned *error_p, data_off_t *countsize_p)',
+                   prologue='\tunsigned char hash[HASH_MAX];\n\tchar esc_buffer[ESC_MAX];\n\tint read_size;\n\tunsigned failed_count = *failed_count_p, error = *error_p;\n\tdata_off_t countsize = *countsize_p;\n\tint once;\n\tfor (once = 0; once < 1; ++once) { /* per-disk loop body; the region text closes this brace */',
+                   epilogue='\t*failed_count_p = failed_count; *error_p = error; *countsize_p = countsize;\n\t(void)esc_buffer;')
+
+
 def writeback_obs():
-    return [Ob('check.repair_outcome.region', 'harness/h_writeback.c', 'h_repair_outcome', inject=[WRITEBACK, REPAIR_OUTCOME], unwind=12, small_path=True, timeout=1200, mem=8, cost=8, replay=False, kind='bounded',
+    return [Ob('check.data_verify.region', 'harness/h_writeback.c', 'h_data_verify', inject=[WRITEBACK, REPAIR_OUTCOME, DATA_VERIFY], unwind=18, small_path=True, timeout=1200, mem=8, cost=6, replay=False,
+               functions=['state_check_process: region "read from the file" .. "now read and check the parity" (cmdline/check.c, extracted mechanically)'],
+               note='every read outcome, block state BLK / CHG / REP, digest and recorded hash (hash size 16), migration flag, disk slot, fill of the failed set; handle_read / memhash by stub'),
+            Ob('check.repair_outcome.region', 'harness/h_writeback.c', 'h_repair_outcome', inject=[WRITEBACK, REPAIR_OUTCOME, DATA_VERIFY], unwind=12, small_path=True, timeout=1200, mem=8, cost=8, replay=False, kind='bounded',
                bound='at most 3 failed entries per stripe, 1..6 parity levels, block size 8',
                functions=['state_check_process: region "try all the recovering strategies" .. "now write recovered files" (cmdline/check.c, extracted mechanically)'],
                note='every result of repair, bad / out-of-date pattern, recomputed and on-disk parity content, readable levels, used / valid parity; repair by stub (its own units)'),
-            Ob('check.writeback.region', 'harness/h_writeback.c', 'h_writeback', inject=[WRITEBACK, REPAIR_OUTCOME], unwind=12, small_path=True, timeout=1200, mem=8, cost=10, replay=False, kind='bounded',
+            Ob('check.writeback.region', 'harness/h_writeback.c', 'h_writeback', inject=[WRITEBACK, REPAIR_OUTCOME, DATA_VERIFY], unwind=12, small_path=True, timeout=1200, mem=8, cost=10, replay=False, kind='bounded',
                bound='at most 3 failed entries per stripe, 1..6 parity levels',
                functions=['state_check_process: region "now write recovered files" (cmdline/check.c, extracted mechanically)'],
                note='check and fix, every bad / out-of-date / excluded / unsynced combination per entry, every disk slot and file position, every write outcome, every readability / accessibility / exclusion per parity level; handle_write / parity_write by recording stub')]
